@@ -25,7 +25,7 @@ CONFIGS = {
 
 # executor name -> translation units (source, extra defines)
 EXECUTORS = {
-    "hist": [("exec/exec_hist.cpp", "-DHIST_GROUP=%d" % k) for k in range(9)] + [("exec/exec_hist.cpp", "-DHIST_DISPATCH")],
+    "hist": [("exec/exec_hist.cpp", "-DHIST_GROUP=%d" % k) for k in range(10)] + [("exec/exec_hist.cpp", "-DHIST_DISPATCH")],
     "bad": [("exec/exec_bad.cpp", "-DBAD_GROUP=%d" % k) for k in range(8)] + [("exec/exec_bad.cpp", "-DBAD_DISPATCH")],
     "iter": [("exec/exec_iter.cpp", "-DIT_GROUP=%d" % k) for k in range(4)] + [("exec/registry.cpp", '-DVERIF_EXEC_NAME="iter(C08)"')],
     "conv": [("exec/exec_conv.cpp", "-DCV_GROUP=%d" % k) for k in range(6)] + [("exec/registry.cpp", '-DVERIF_EXEC_NAME="conv(C09)"')],
